@@ -48,9 +48,10 @@ def enc_rows(rows, cols=("i1", "i2", "s1", "s2", "b1")):
 def sqlite_table(rows):
     import sqlite3
     c = sqlite3.connect(":memory:")
-    c.execute("CREATE TABLE t (id INTEGER PRIMARY KEY, i1 INTEGER, i2 INTEGER, s1 TEXT, s2 TEXT, b1 BOOLEAN, f1 REAL)")
-    c.executemany("INSERT INTO t (id, i1, i2, s1, s2, b1, f1) VALUES (?,?,?,?,?,?,?)",
-                  [(r["id"], r["i1"], r["i2"], r["s1"], r["s2"], r["b1"], r.get("f1")) for r in rows])
+    c.execute("CREATE TABLE t (id INTEGER PRIMARY KEY, i1 INTEGER, i2 INTEGER, s1 TEXT, s2 TEXT, b1 BOOLEAN, f1 REAL, d1 DATE, dt1 DATETIME)")
+    c.executemany("INSERT INTO t (id, i1, i2, s1, s2, b1, f1, d1, dt1) VALUES (?,?,?,?,?,?,?,?,?)",
+                  [(r["id"], r["i1"], r["i2"], r["s1"], r["s2"], r["b1"], r.get("f1"), r["d1"].isoformat() if r.get("d1") else None,
+                    r["dt1"].isoformat(sep=" ") if r.get("dt1") else None) for r in rows])
     return c
 
 
@@ -102,4 +103,77 @@ def judge_numeric(ctx, ids_fn, rows, kf=None):
                 sel += 1 if a else 0
         if 0 < sel < len(rows):
             ctx.nontrivial.add("num:" + t)
+    return viol, tally
+
+
+# --- date stream: Edm.Date comparison / membership / year month day, clock parts of a date-time; judged against Spec/DateSem.lean -----
+import datetime as _dt
+DATE_CELLS = [_dt.date(2020, 1, 1), _dt.date(1999, 12, 31), _dt.date(2020, 2, 29), _dt.date(2021, 10, 9), _dt.date(999, 12, 31), _dt.date(1000, 1, 1),
+              _dt.date(9999, 12, 31), _dt.date(2020, 1, 31), _dt.date(1, 1, 1), None]
+CLOCKS = [(10, 5, 59), (23, 59, 59), (0, 0, 0), (9, 8, 7), (12, 0, 1), (0, 59, 0), (1, 1, 1), (13, 30, 30), (6, 6, 6), None]
+DATE_LITS = ["2020-01-01", "2020-02-29", "0999-12-31", "1000-01-01", "9999-12-31", "0001-01-01", "2020-01-31", "2010-06-15"]
+
+def date_rows():
+    rows = []
+    for k, (d, c) in enumerate(zip(DATE_CELLS, CLOCKS)):
+        dtv = _dt.datetime(d.year, d.month, d.day, *c) if (d is not None and c is not None) else None
+        rows.append({"id": k + 1, "i1": None, "i2": None, "s1": None, "s2": None, "b1": None, "f1": None, "d1": d, "dt1": dtv, "_clock": c if dtv is not None else None})
+    return rows
+
+def date_cases():
+    """(driver request builder, filter text)"""
+    cases = []
+    for cmp in CMP_WORDS:
+        for lit in DATE_LITS:
+            cases.append((("datecmp", cmp, lit), "d", f"d1 {cmp} {lit}"))
+            cases.append((("datecmp", {"lt": "gt", "gt": "lt", "le": "ge", "ge": "le"}.get(cmp, cmp), lit), "d", f"{lit} {cmp} d1"))
+    for a, b in [("2020-01-01", "1999-12-31"), ("0999-12-31", "2020-02-29"), ("2010-06-15", "2010-06-16")]:
+        cases.append((("datein", a + ";" + b), "d", f"d1 in ({a}, {b})"))
+    for part, ns in (("year", [1, 999, 1000, 1999, 2020, 9999]), ("month", [1, 2, 10, 12]), ("day", [1, 9, 29, 31])):
+        for cmp in CMP_WORDS:
+            for n in ns:
+                cases.append((("datepart", part, cmp, str(n)), "d", f"{part}(d1) {cmp} {n}"))
+                cases.append((("datepart", part, cmp, str(n)), "dt", f"{part}(dt1) {cmp} {n}"))
+    for part, ns in (("hour", [0, 9, 10, 23]), ("minute", [0, 5, 59]), ("second", [0, 7, 59])):
+        for cmp in CMP_WORDS:
+            for n in ns:
+                cases.append((("clockpart", part, cmp, str(n)), "c", f"{part}(dt1) {cmp} {n}"))
+    return cases
+
+def date_expect(cases, rows):
+    dcells = ",".join("n" if r["d1"] is None else r["d1"].isoformat() for r in rows)
+    dtcells = ",".join("n" if r["dt1"] is None else r["dt1"].date().isoformat() for r in rows)
+    ccells = ",".join("n" if r["_clock"] is None else ":".join(map(str, r["_clock"])) for r in rows)
+    outs = driver.run_batch([driver.req(*req, {"d": dcells, "dt": dtcells, "c": ccells}[which]) for req, which, t in cases])
+    return [o.split(" ") for o in outs]
+
+def judge_dates(ctx, ids_fn, rows, skip=None):
+    """as judge_numeric, for the date stream; skip(text, outcome) -> True when the backend's refusal is outside the supported fragment"""
+    import collections
+    cases = date_cases()
+    exp = date_expect(cases, rows)
+    viol, tally = [], collections.Counter()
+    for (req, which, t), want in zip(cases, exp):
+        got = ids_fn(t)
+        ctx.evaluations += 1
+        if not isinstance(got, set):
+            if skip and skip(t, got):
+                tally["outside-supported:" + str(got)[:50]] += 1
+                continue
+            tally["refused-or-error:" + str(got)[:40]] += 1
+            viol.append((t, None, f"not translated / not executed: {str(got)[:120]}"))
+            continue
+        sel = 0
+        for r, w in zip(rows, want):
+            a = r["id"] in got
+            if w == "bad-cell":
+                viol.append((t, None, "harness: malformed cell")); break
+            if a != (w == "T"):
+                tally["SPEC-MISMATCH"] += 1
+                viol.append((t, {"id": r["id"], "d1": str(r["d1"]), "dt1": str(r["dt1"])}, f"backend {'selects' if a else 'does not select'} the row, OData semantics (Spec.DateSem) says {w}"))
+            else:
+                tally["spec-agree"] += 1
+                sel += 1 if a else 0
+        if 0 < sel < len(rows):
+            ctx.nontrivial.add("date:" + t)
     return viol, tally
